@@ -198,12 +198,19 @@ unsafe fn level_swap<M: Manager>(
             }
         }
 
-        upper.insert(manager.clone_edge(e));
         for (i, child) in new_children.into_iter().enumerate() {
             // SAFETY: we have exclusive access to all nodes at the old upper
             // level and no child is borrowed.
             manager.drop_edge(unsafe { node.set_child(i, child) });
         }
+        // The node stays at the (new) upper level, where all nodes carry
+        // `lower_no_pre` as their level number until the caller updates the
+        // level numbers. It must be inserted with its new children, since
+        // these are the key in the unique table.
+        // SAFETY: we have exclusive access to all nodes at the old upper level.
+        unsafe { node.set_level(lower_no_pre) };
+        // SAFETY: the caller will update level numbers accordingly
+        unsafe { upper.insert_unchecked(manager.clone_edge(e)) };
     }
 
     abort_on_panic.defuse();
